@@ -399,3 +399,79 @@ pub fn pick_fcap(rng: &mut Rng, mut count: impl FnMut(&str)) -> u64 {
 pub fn deliver_line(rng: &mut Rng, text: &str, count: impl FnMut(&str)) -> String {
 	format!("cl deliver {}", crate::common::hexs(&maybe_respell(rng, text, count)))
 }
+
+// ---------------------------------------------------------------------------------------------
+// wire-level bookkeeping shared by the oracles
+
+/// Request ids the client has put on the wire and the server has not answered yet.  Judged from the outgoing and
+/// incoming texts only: an id is in flight from the request (or batch entry) that bears it until a response bearing
+/// it is delivered.
+#[derive(Default)]
+pub struct InFlight {
+	ids: Vec<(String, String)>,
+}
+
+impl InFlight {
+	/// ids are compared as the batch code compares them: a string that reads as a u64 is that number
+	fn key(id: &Value) -> String {
+		match id {
+			Value::String(s) => s.parse::<u64>().map(|n| n.to_string()).unwrap_or_else(|_| id.to_string()),
+			other => other.to_string(),
+		}
+	}
+
+	fn request_ids(v: &Value) -> Vec<String> {
+		match v {
+			Value::Array(a) => a.iter().flat_map(Self::request_ids).collect(),
+			Value::Object(o) if o.contains_key("method") => o.get("id").map(|i| vec![Self::key(i)]).unwrap_or_default(),
+			_ => vec![],
+		}
+	}
+
+	/// a text the client wrote: every request id in it must differ from every id still in flight (and from the
+	/// other ids of the same text)
+	pub fn on_wire(&mut self, text: &str) -> Result<(), String> {
+		let Ok(v) = serde_json::from_str::<Value>(text) else { return Ok(()) };
+		let what = if v.is_array() { "batch" } else { v.get("method").and_then(|m| m.as_str()).unwrap_or("request") }.to_string();
+		let mut verdict = Ok(());
+		for id in Self::request_ids(&v) {
+			if let Some((_, owner)) = self.ids.iter().find(|(x, _)| *x == id) {
+				if verdict.is_ok() {
+					verdict = Err(format!(
+						"the client wrote request id {id} ({what}: {text}) while the {owner} bearing the same id is still in flight: two requests in flight share a wire id"
+					));
+				}
+			}
+			self.ids.push((id, format!("{what} request {text}")));
+		}
+		verdict
+	}
+
+	/// a text the server sent: the ids it answers are no longer in flight
+	pub fn on_deliver(&mut self, text: &str) {
+		let Ok(v) = serde_json::from_str::<Value>(text) else { return };
+		let elems: Vec<&Value> = match &v {
+			Value::Array(a) => a.iter().collect(),
+			other => vec![other],
+		};
+		for e in elems {
+			if msg_kind(e) == MsgKind::Response {
+				if let Some(id) = e.get("id") {
+					let id = Self::key(id);
+					if let Some(pos) = self.ids.iter().position(|(x, _)| *x == id) {
+						self.ids.remove(pos);
+					}
+				}
+			}
+		}
+	}
+
+	pub fn clear(&mut self) {
+		self.ids.clear();
+	}
+}
+
+/// the `for=<op>` tag of a `cl deliver <hex> for=<op>` line: the operation the mock server made this reply for
+pub fn reply_tag(words: &[&str]) -> Option<usize> {
+	words.get(3).and_then(|t| t.strip_prefix("for=")).and_then(|n| n.parse().ok())
+}
